@@ -684,41 +684,47 @@ pub fn statement<'t>(ctx: Context<'t>) -> ParseResult<'t, Statement> {
 
         // Expression or assignment. We probe to find out which.
         _ => {
-            /// `a = 5`.
-            fn assignment<'t>(ctx: Context<'t>) -> ParseResult<'t, StatementKind> {
-                // The assignable to assign to.
-                let (ctx, target) = assignable(ctx)?;
-                let kind = match ctx.token() {
-                    T::PlusEqual => Op::Add,
-                    T::MinusEqual => Op::Sub,
-                    T::StarEqual => Op::Mul,
-                    T::SlashEqual => Op::Div,
-                    T::Equal => Op::Nop,
+            let start = ctx;
+            // Probe with `assignable`, and keep what the probe has parsed: parsing it a second
+            // time doubled the work for every level of `f(fn do .. end)` nested in statements.
+            match assignable(start) {
+                // `a = 5`.
+                Ok((ctx, target))
+                    if matches!(
+                        ctx.token(),
+                        T::PlusEqual | T::MinusEqual | T::StarEqual | T::SlashEqual | T::Equal
+                    ) =>
+                {
+                    let kind = match ctx.token() {
+                        T::PlusEqual => Op::Add,
+                        T::MinusEqual => Op::Sub,
+                        T::StarEqual => Op::Mul,
+                        T::SlashEqual => Op::Div,
+                        _ => Op::Nop,
+                    };
+                    // The expression to assign the assignable to.
+                    let (ctx, value) = expression(ctx.skip(1))?;
+                    (ctx, Assignment { kind, target, value })
+                }
 
-                    t => {
-                        raise_syntax_error!(ctx, "No assignment operation matches '{:?}'", t);
-                    }
-                };
-                // The expression to assign the assignable to.
-                let (ctx, value) = expression(ctx.skip(1))?;
-                Ok((ctx, Assignment { kind, target, value }))
-            }
+                // An expression that starts with this assignable.
+                Ok((ctx, target)) if !starts_blob_instance(start) => {
+                    let value = Expression::new(start.span(), ExpressionKind::Get(target));
+                    let (ctx, value) = expression_after(ctx, value)?;
+                    (ctx, StatementExpression { value })
+                }
 
-            // Probe if we should parse an assignable here.
-            // If not, we parse an expression.
-            let is_assignment = match assignable(ctx) {
-                Ok((ctx, _)) => matches!(
-                    ctx.token(),
-                    T::PlusEqual | T::MinusEqual | T::StarEqual | T::SlashEqual | T::Equal
-                ),
-                _ => false,
-            };
+                // The expression parser would start with the same assignable and stop at the
+                // same error.
+                Err(err) if matches!(start.token(), T::Identifier(_)) && !starts_blob_instance(start) => {
+                    return Err(err);
+                }
 
-            if is_assignment {
-                assignment(ctx)?
-            } else {
-                let (ctx, value) = expression(ctx)?;
-                (ctx, StatementExpression { value })
+                // Any other expression.
+                _ => {
+                    let (ctx, value) = expression(start)?;
+                    (ctx, StatementExpression { value })
+                }
             }
         }
     };
